@@ -41,6 +41,9 @@ import dawgie.pl.state as state  # noqa: E402
 import dawgie.tools.submit  # noqa: E402
 from dawgie.pl.jobinfo import State as JState  # noqa: E402
 
+_REAL_DISTRIBUTION = dawgie.pl.resources.distribution
+_REAL_LAST_RUNID = dawgie.pl.resources.last_runid
+
 TLS = threading.local()
 KS = ('crew', 'doing', 'todo')
 PRIO = {None: 'none'}
@@ -175,6 +178,9 @@ class World:
         dawgie.db.metrics = lambda *a, **k: []
         dawgie.pl.resources.distribution = lambda m: {}
         dawgie.pl.resources.last_runid = lambda: 0
+        self.metrics_kind = 'stub'
+        if variant % 4 == 1:
+            self.real_introspection(variant // 4)
         dawgie.context._rev = lambda: dawgie.context.git_rev
         dawgie.tools.submit.already_applied = lambda *a, **k: False
         dawgie.tools.submit.mail_out = lambda *a, **k: None
@@ -234,6 +240,47 @@ class World:
         d = twisted.internet.defer.Deferred()
         self.pending.append((name.strip('_'), fn, args, kwds, d))
         return d
+
+    def real_introspection(self, kind):
+        '''the introspection step (FSM._navel_gaze) with the REAL dawgie.pl.resources (regress / distribution / diary file) over a
+        generated metric history: ordinary samples, samples reported as unknown (negative, kept as NaN), a mix, an
+        algorithm with a single run, and a diary left behind by an earlier life of the process'''
+        import shutil
+        import warnings
+
+        warnings.simplefilter('ignore')
+        kinds = ['ordinary', 'unknown', 'mixed', 'single', 'diary']
+        self.metrics_kind = kinds[kind % len(kinds)]
+        per = os.path.join(WORK, f'per_{os.getpid()}')
+        shutil.rmtree(per, True)
+        os.makedirs(per)
+        dawgie.context.data_per = per
+        keys = ['task_system', 'task_user', 'task_input', 'task_output', 'db_memory', 'task_memory', 'db_pages', 'task_pages']
+
+        class Val:
+            def __init__(self, v):
+                self.v = v
+
+            def value(self):
+                return self.v
+
+        def sample(alg, rid, unknown):
+            sv = {k: Val((-5 if k.startswith('db') else -1) if unknown else (3 * 2**20 + rid if 'memory' in k else 2 + rid)) for k in keys}
+            return dawgie.db.MetricData(alg_name=alg, alg_ver=None, sv=sv, run_id=rid, target='T1', task='t0')
+
+        k = self.metrics_kind
+        hist = {
+            'ordinary': [sample('a', 1, False), sample('a', 2, False), sample('b', 1, False)],
+            'unknown': [sample('a', 1, True), sample('b', 1, False)],
+            'mixed': [sample('a', 1, True), sample('a', 2, False), sample('a', 3, True)],
+            'single': [sample('a', 1, False)],
+            'diary': [sample('a', 2, True), sample('b', 2, False)],
+        }[k]
+        if k == 'diary':
+            dawgie.pl.resources.regress([sample('a', 1, True)])  # an earlier life of the process wrote the diary
+        dawgie.db.metrics = lambda after=-1, *a, **kw: [m for m in hist if m.run_id > after]
+        dawgie.pl.resources.distribution = _REAL_DISTRIBUTION
+        dawgie.pl.resources.last_runid = _REAL_LAST_RUNID
 
     def complete(self, name):
         for i, (n, fn, args, kwds, d) in enumerate(self.pending):
